@@ -10,8 +10,8 @@ from .. import gen_simfile as G
 ID = "C16"
 N_QUICK, N_THOROUGH = 1200, 60000
 RULE = ("SM sources built as for C01 carrying OFFSET, BPMS, STOPS (DELAYS/WARPS optional, ANIMATIONS alias, SSC-only keys, negative BPM/stop values), 0..4 "
-        "charts; with/without caller templates (blank-derived with extra properties and with charts; chart template); the SM corpus file; compares "
-        "the converted simfile or the raised error; oracle: properties kept, template fill, charts, TimingData equal (simfile and per chart), reload, "
+        "charts; with/without caller templates (blank-derived with extra properties and with charts; short templates holding only a few keys; chart template, blank-derived or short, ending with its note data); the SM corpus file; compares "
+        "the converted simfile or the raised error (key order included); oracle: properties kept, template fill and nothing else (key sets), charts, TimingData equal (simfile and per chart), reload, "
         "inputs unmodified and no shared mutable object (mutate the result, re-snapshot the inputs); non-trivial = at least one chart")
 assumptions = ["a template supplies no non-empty chart timing value the source lacks (true of the blank templates; caller templates in the generator respect it)"]
 extra_trusted = []
@@ -59,9 +59,11 @@ def rand_templates(rng):
               "charts": rng.choice([0, 0, 1, 2])}
     elif r < 0.42:
         ts = {"props": "empty", "extra": [], "charts": rng.choice([0, 1])}
+    elif r < 0.52:
+        ts = {"props": "partial", "extra": [["CREDIT", "tmpl"], ["X", "y"]][: rng.randrange(0, 3)], "charts": rng.choice([0, 0, 1])}
     if rng.random() < 0.3:
         pool = [["CHARTNAME", "t"], ["CREDIT", "c"], ["DISPLAYBPM", "90.000:180.000"], ["ATTACKS", "TIME=1.5:LEN=2:MODS=drunk"], ["DISPLAYBPM", "*"]]
-        tc = {"extra": rng.sample(pool, rng.randrange(0, 4)), "empty": rng.random() < 0.2, "notes2": rng.random() < 0.4}
+        tc = {"extra": rng.sample(pool, rng.randrange(0, 4)), "empty": rng.random() < 0.2, "notes2": rng.random() < 0.4, "partial": rng.random() < 0.25}
     return ts, tc
 
 
@@ -94,14 +96,17 @@ def build(c):
             sm.charts.append(SMChart.from_msd(ch[:6]))
     ts = tc = None
     if c["ts"]:
-        ts = SSCSimfile.blank() if c["ts"]["props"] == "blank" else SSCSimfile(string="")
+        ts = (SSCSimfile.blank() if c["ts"]["props"] == "blank" else
+              SSCSimfile(string="#VERSION:0.83;#TITLE:from a short template;#SELECTABLE:NO;") if c["ts"]["props"] == "partial" else SSCSimfile(string=""))
         for kk, vv in c["ts"]["extra"]:
             ts[kk] = vv
         for j in range(c["ts"]["charts"]):
             ch = SSCChart.blank(); ch.description = "template chart %d" % j
             ts.charts.append(ch)
     if c["tc"]:
-        tc = SSCChart() if c["tc"]["empty"] else SSCChart.blank()
+        tc = SSCChart() if (c["tc"]["empty"] or c["tc"].get("partial")) else SSCChart.blank()
+        if c["tc"].get("partial"):           # a short template: only what differs from blank, ending with its note data
+            tc["CHARTSTYLE"] = "from a short template"; tc["NOTES"] = ""
         for kk, vv in c["tc"]["extra"]:
             tc[kk] = vv
         if c["tc"].get("notes2") and "NOTES" in tc:
@@ -248,11 +253,19 @@ def oracle(c, o):
     ntmpl = len(tso[1]) if (tso and tso[0]) else 0
     if len(out_charts) != ntmpl + len(charts):
         return "%d charts in the result, expected %d template + %d source" % (len(out_charts), ntmpl, len(charts))
+    if tco:
+        tmpl_chart_keys = [k for k, v in tco]
+    else:
+        from simfile.ssc import SSCChart
+        tmpl_chart_keys = list(SSCChart.blank().keys())
     for oc, sc in zip(out_charts[ntmpl:], charts):
         ocd = dict((k, v) for k, v in oc)
         for k, v in sc:
             if ocd.get(k) != v:
                 return "chart field %s: source %r, result %r" % (k, v, ocd.get(k))
+        want_ck = tmpl_chart_keys + [k for k, v in sc if k not in tmpl_chart_keys]
+        if sorted(k for k, v in oc) != sorted(want_ck):
+            return "chart keys %s, expected the template's keys and the six source fields %s" % ([k for k, v in oc], want_ck)
     for key in ("unmodified", "timing_equal", "chart_timing_equal", "notes_equal", "reload_equal", "no_sharing"):
         if o.get(key) is not True:
             return "%s is %s" % (key, o.get(key))
